@@ -96,49 +96,27 @@ fn panic_msg(e: Box<dyn std::any::Any + Send>) -> String {
 }
 
 pub fn err_class(e: &JmespathError) -> String {
-    use jmespath::{ErrorReason, RuntimeError::*};
-    match &e.reason {
-        ErrorReason::Parse(_) => "Parse".into(),
-        ErrorReason::Runtime(r) => format!(
-            "Runtime::{}",
-            match r {
-                InvalidSlice => "InvalidSlice",
-                TooManyArguments { .. } => "TooManyArguments",
-                NotEnoughArguments { .. } => "NotEnoughArguments",
-                UnknownFunction(_) => "UnknownFunction",
-                InvalidType { .. } => "InvalidType",
-                InvalidReturnType { .. } => "InvalidReturnType",
-            }
-        ),
+    // variant names taken from the Debug rendering, so that a new error variant in the
+    // library does not stop this harness from compiling
+    let d = format!("{:?}", e.reason);
+    let head = |t: &str| -> String { t.chars().take_while(|c| c.is_alphanumeric() || *c == '_').collect() };
+    let outer = head(&d);
+    if outer == "Runtime" {
+        let inner = d.get("Runtime(".len()..).map(head).unwrap_or_default();
+        format!("Runtime::{}", inner)
+    } else {
+        outer
     }
 }
 
-fn root_kind(text: &str) -> &'static str {
+fn root_kind(text: &str) -> String {
     match jmespath::parse(text) {
-        Err(_) => "invalid",
-        Ok(ast) => {
-            use jmespath::ast::Ast::*;
-            match ast {
-                Comparison { .. } => "comparison",
-                Condition { .. } => "condition",
-                Identity { .. } => "identity",
-                Expref { .. } => "expref",
-                Flatten { .. } => "flatten",
-                Function { .. } => "function",
-                Field { .. } => "field",
-                Index { .. } => "index",
-                Literal { .. } => "literal",
-                MultiList { .. } => "multilist",
-                MultiHash { .. } => "multihash",
-                Not { .. } => "not",
-                Projection { .. } => "projection",
-                ObjectValues { .. } => "objectvalues",
-                And { .. } => "and",
-                Or { .. } => "or",
-                Slice { .. } => "slice",
-                Subexpr { .. } => "subexpr",
-            }
-        }
+        Err(_) => "invalid".to_string(),
+        Ok(ast) => format!("{:?}", ast)
+            .chars()
+            .take_while(|c| c.is_alphanumeric())
+            .collect::<String>()
+            .to_lowercase(),
     }
 }
 
@@ -469,7 +447,7 @@ impl<'g> Exec<'g> {
             RInput::Typed(t, _) => t.ty(),
         };
         let mut th = Hasher64::new();
-        th.str(formname).str(vc).str(root_kind(text));
+        th.str(formname).str(vc).str(&root_kind(text));
         let t = th.finish();
         self.stats.triples.insert(t);
         if special {
